@@ -442,6 +442,21 @@ def run(rep, ctx):
                 else:
                     want = TABLE[("Abs", "var", "neg")]
                     neg = [x for x in f.walk() if x["k"] == "VarDecl" and x.get("name") == "res"]
+                    a0_ = strip(call_args(c)[0])
+                    hlp_ = getattr(F, "_by_id", {}).get(a0_.get("calleeId")) if a0_["k"] in ("CallExpr", "CXXMemberCallExpr") else None
+                    if not neg and hlp_ is not None and hlp_.cfg is not None and len(call_args(a0_)) == 1 and \
+                            inline(f, call_args(a0_)[0]) == "c.GetArguments()[0]" and hlp_.params:
+                        # -x is built by a helper taking x: its result object and what it returns
+                        rets_ = [r_ for r_ in hlp_.walk() if r_["k"] == "ReturnStmt" and kids(r_)]
+                        neg = [x for x in hlp_.walk() if x["k"] == "VarDecl" and kids(x) and
+                               any(y["k"] == "DeclRefExpr" and y.get("declId") == hlp_.params[0]["declId"] for y in walk(x))]
+                        if len(rets_) == 1 and len(neg) == 1 and render(kids(rets_[0])[0]).replace(" ", "") == neg[0]["name"] + ".get_var()":
+                            arg = "helper(" + neg[0]["name"] + ").get_var()"
+                            for y in walk(neg[0]):
+                                if y["k"] == "DeclRefExpr" and y.get("declId") == hlp_.params[0]["declId"]:
+                                    y["name"] = "argvar"           # the parameter stands for the caller's argvar
+                        else:
+                            neg = []
                     def has_minus_one(n_):
                         for x in walk(n_):
                             if x.get("cv") in ("-1", "-1.0") or (x["k"] == "UnaryOperator" and x.get("op") == "-" and
